@@ -324,4 +324,26 @@ CLAIMS = {
   'technique': 'static analysis: decision table, guard dominance, wrapper '
                'forwarding check',
  },
+ 'C14': {
+  'text': 'Decided as twin agreement of the two source texts, which is the '
+          'mechanism the project itself relies on, not as a differential '
+          'run: for the 7 class pairs (thorough: + Redis managers and admin '
+          'classes) method sets and signatures agree, and every twin body '
+          'reduces to the same normal form under the regular '
+          'sync<->asyncio translation (await/async erasure, timed-wait '
+          'idioms, CancelledError handlers, coroutine-function dual arms, '
+          'task fan-out, returns sunk into branches, dead stores); the '
+          'remaining irregular differences are a frozen accepted-drift '
+          'table (one statement wide, reason each); because the normal '
+          'form erases await, a separate rule checks that every call of a '
+          'coroutine function in the asyncio classes is awaited or '
+          'scheduled. A change made to one twin only - or to both '
+          'differently - is reported as TWIN-DRIFT with both sites.',
+  'note': TRUST + 'assumes the asyncio primitives of the idiom table behave '
+          'like their threaded counterparts; a one-sided behaviour-'
+          'preserving refactoring not absorbed by the normal form is '
+          'reported although parity holds (stated residual risk).',
+  'technique': 'static analysis: twin normal form + structural diff, '
+               'await-discipline lint over resolved callees',
+ },
 }
